@@ -1,6 +1,240 @@
-/- C17 — property theorems.  Stub. -/
-import CBV.Model.C17
+/-
+C17 — property theorems.  Line / plane / radial clamps stay on their manifold for every parameter value and a
+fresh clamp reports the closest point of the manifold (the creation position when that is on it); translation,
+symmetry and rotation links keep their relation for leader moves of any size; `update` does not touch the leader.
+-/
+import CBV.Lemmas.C17
+import Mathlib.Algebra.Order.Field.Basic
 
 namespace CBV.C17
+open CBV CBV.C09
+
+set_option linter.unusedSimpArgs false
+
+/-! ### clamps stay on their manifold -/
+
+/-- a `LineClamp` position is collinear with `p1, p2` for every parameter, and the parameter is the signed
+    distance from `p1` (`s` being the length of `p2 − p1`) -/
+theorem T_C17_line_on (p1 p2 : V3) (s t : Rat) (hs : s ≠ 0) (hw : s * s = V3.dot (p2 - p1) (p2 - p1)) :
+    V3.cross (lineClamp p1 p2 s t - p1) (p2 - p1) = V3.zero ∧
+      V3.dot (lineClamp p1 p2 s t - p1) (p2 - p1) = t * s ∧
+      V3.norm2 (lineClamp p1 p2 s t - p1) = t * t := by
+  have hd : lineClamp p1 p2 s t - p1 = V3.smul (t / s) (p2 - p1) := by
+    apply V3.ext' <;> c17_unfold <;> ring
+  rw [hd]
+  refine ⟨?_, ?_, ?_⟩
+  · apply V3.ext' <;> c17_unfold <;> ring
+  · have : V3.dot (V3.smul (t / s) (p2 - p1)) (p2 - p1) = (t / s) * V3.dot (p2 - p1) (p2 - p1) := by
+      c17_unfold; ring
+    rw [this, ← hw]; field_simp
+  · have : V3.norm2 (V3.smul (t / s) (p2 - p1)) = (t / s) * (t / s) * V3.dot (p2 - p1) (p2 - p1) := by
+      c17_unfold; ring
+    rw [this, ← hw]; field_simp
+
+/-- (3,4,12)/13-type witness: the segment from (0,0,0) to (3,4,12) has length 13 -/
+example : (13 : Rat) ≠ 0 ∧ (13 : Rat) * 13 = V3.dot ((⟨3, 4, 12⟩ : V3) - ⟨0, 0, 0⟩) (⟨3, 4, 12⟩ - ⟨0, 0, 0⟩) := by
+  constructor
+  · norm_num
+  · c17_unfold; norm_num
+
+/-- with the default bounds `0 ≤ t ≤ s` the position lies between `p1` and `p2` -/
+theorem T_C17_line_segment (p1 p2 : V3) (s t : Rat) (hs : 0 < s) (h0 : 0 ≤ t) (h1 : t ≤ s) :
+    ∃ l : Rat, 0 ≤ l ∧ l ≤ 1 ∧ lineClamp p1 p2 s t = p1 + V3.smul l (p2 - p1) :=
+  ⟨t / s, div_nonneg h0 (le_of_lt hs), (div_le_one hs).mpr h1, rfl⟩
+
+example : (0 : Rat) < 13 ∧ (0 : Rat) ≤ 5 ∧ (5 : Rat) ≤ 13 := by norm_num
+
+/-- a `PlaneClamp` position satisfies the plane equation for all parameters, whatever pair of in-plane
+    directions was drawn -/
+theorem T_C17_plane_on (point n u v : V3) (a b : Rat) (hu : V3.dot u n = 0) (hv : V3.dot v n = 0) :
+    V3.dot (planeClamp point u v a b - point) n = 0 := by
+  have : V3.dot (planeClamp point u v a b - point) n = a * V3.dot u n + b * V3.dot v n := by
+    c17_unfold; ring
+  rw [this, hu, hv]; ring
+
+example : V3.dot (⟨2, -2, 1⟩ : V3) ⟨1, 2, 2⟩ = 0 ∧ V3.dot (⟨2, 1, -2⟩ : V3) ⟨1, 2, 2⟩ = 0 := by
+  constructor <;> (c17_unfold; norm_num)
+
+/-- a `RadialClamp` position keeps its height along the axis and its distance from the centre — hence its radius
+    about the axis — for every turn -/
+theorem T_C17_radial_on (center n : V3) (w mu : Rat) (initial : V3)
+    (hN : w * w + V3.dot (V3.smul mu n) (V3.smul mu n) ≠ 0) :
+    V3.dot (radialClamp center n w mu initial - center) n = V3.dot (initial - center) n ∧
+      V3.norm2 (radialClamp center n w mu initial - center) = V3.norm2 (initial - center) := by
+  have h1 : radialClamp center n w mu initial - center = rotLin w (V3.smul mu n) (initial - center) := by
+    unfold radialClamp rotP; exact add_sub_cancel' _ _
+  rw [h1]
+  constructor
+  · generalize initial - center = v
+    simp only [V3.dot] at hN
+    c17_unfold
+    simp only [V3.smul_x, V3.smul_y, V3.smul_z] at hN
+    generalize hNd : w * w + (mu * n.x * (mu * n.x) + mu * n.y * (mu * n.y) + mu * n.z * (mu * n.z)) = N at hN ⊢
+    field_simp
+    ring
+  · exact rotLin_dot _ _ _ _ hN
+
+example : (2 : Rat) * 2 + V3.dot (V3.smul (1 / 2) ⟨1, 2, 2⟩) (V3.smul (1 / 2) ⟨1, 2, 2⟩) ≠ 0 := by
+  c17_unfold; norm_num
+
+/-! ### a fresh clamp reports the closest point of its manifold -/
+
+/-- the reported position of a fresh `LineClamp` is within the bounds and at least as close to the creation
+    position as every other admissible position; if the creation position is itself admissible it is reported -/
+theorem T_C17_initial_line (p1 p2 : V3) (s lo hi : Rat) (pos : V3) (hs : s ≠ 0)
+    (hw : s * s = V3.dot (p2 - p1) (p2 - p1)) (hb : lo ≤ hi) :
+    (lo ≤ lineInitParam p1 p2 s lo hi pos ∧ lineInitParam p1 p2 s lo hi pos ≤ hi) ∧
+    (∀ t, lo ≤ t → t ≤ hi → V3.norm2 (pos - lineInit p1 p2 s lo hi pos) ≤ V3.norm2 (pos - lineClamp p1 p2 s t)) ∧
+    (∀ t, lo ≤ t → t ≤ hi → pos = lineClamp p1 p2 s t → lineInit p1 p2 s lo hi pos = pos) := by
+  refine ⟨clampTo_mem _ _ _ hb, ?_, ?_⟩
+  · intro t h1 h2
+    unfold lineInit lineInitParam
+    rw [dist_line_param pos p1 p2 s _ hs hw, dist_line_param pos p1 p2 s t hs hw]
+    have := clampTo_closest lo hi (V3.dot (pos - p1) (p2 - p1) / s) t h1 h2
+    linarith
+  · intro t h1 h2 hpos
+    have hm : V3.dot (pos - p1) (p2 - p1) / s = t := by
+      rw [hpos, (T_C17_line_on p1 p2 s t hs hw).2.1]; field_simp
+    unfold lineInit lineInitParam
+    rw [hm, clampTo_id lo hi t h1 h2, ← hpos]
+
+example : (13 : Rat) ≠ 0 ∧ (0 : Rat) ≤ 13 := by norm_num
+
+/-- the reported position of a fresh `PlaneClamp` is the foot point: on the plane, at least as close to the
+    creation position as every point of the plane, and the creation position itself when that is on the plane -/
+theorem T_C17_initial_plane (point n pos : V3) (hn : V3.dot n n ≠ 0) :
+    V3.dot (planeInit point n pos - point) n = 0 ∧
+    (∀ x, V3.dot (x - point) n = 0 → V3.norm2 (pos - planeInit point n pos) ≤ V3.norm2 (pos - x)) ∧
+    (V3.dot (pos - point) n = 0 → planeInit point n pos = pos) := by
+  refine ⟨?_, ?_, ?_⟩
+  · simp only [V3.dot] at hn
+    c17_unfold
+    generalize hNd : n.x * n.x + n.y * n.y + n.z * n.z = N at hn ⊢
+    field_simp
+    rw [← hNd]; ring
+  · intro x hx
+    have hq : V3.dot (planeInit point n pos - point) n = 0 := by
+      simp only [V3.dot] at hn
+      c17_unfold
+      generalize hNd : n.x * n.x + n.y * n.y + n.z * n.z = N at hn ⊢
+      field_simp
+      rw [← hNd]; ring
+    have hpq : pos - planeInit point n pos = V3.smul (V3.dot (pos - point) n / V3.dot n n) n := by
+      unfold planeInit
+      apply V3.ext' <;> simp only [V3.sub_x, V3.sub_y, V3.sub_z, V3.smul_x, V3.smul_y, V3.smul_z] <;> ring
+    generalize planeInit point n pos = q at hq hpq ⊢
+    have hsplit : V3.norm2 (pos - x) = V3.norm2 (pos - q) + V3.norm2 (q - x) + 2 * V3.dot (pos - q) (q - x) := by
+      c17_unfold; ring
+    have hdot : V3.dot (pos - q) (q - x) = 0 := by
+      rw [hpq]
+      have : V3.dot (V3.smul (V3.dot (pos - point) n / V3.dot n n) n) (q - x)
+          = (V3.dot (pos - point) n / V3.dot n n) * (V3.dot (q - point) n - V3.dot (x - point) n) := by
+        generalize V3.dot (pos - point) n / V3.dot n n = c
+        c17_unfold; ring
+      rw [this, hq, hx]; ring
+    have hnn : 0 ≤ V3.norm2 (q - x) := by
+      simp only [V3.norm2, V3.dot]
+      nlinarith [mul_self_nonneg (q - x).x, mul_self_nonneg (q - x).y, mul_self_nonneg (q - x).z]
+    rw [hsplit, hdot]; linarith
+  · intro h
+    unfold planeInit
+    rw [h]
+    apply V3.ext' <;> c17_unfold <;> simp
+
+example : V3.dot (⟨1, -3, 2⟩ : V3) ⟨1, -3, 2⟩ ≠ 0 := by c17_unfold; norm_num
+
+/-- a fresh `RadialClamp` (parameter 0, no turn) reports its creation position -/
+theorem T_C17_initial_radial (center n : V3) (w : Rat) (initial : V3) :
+    radialClamp center n w 0 initial = initial := by
+  apply V3.ext' <;> c17_unfold <;> ring
+
+/-! ### links -/
+
+/-- `TranslationLink`: the follower is the leader displaced by the original offset, wherever the leader goes -/
+theorem T_C17_translation (l0 f0 l1 : V3) : translationLink l0 f0 l1 - l1 = f0 - l0 := by
+  apply V3.ext' <;> c17_unfold <;> ring
+
+/-- `SymmetryLink`: the follower is the leader's mirror image — the midpoint lies on the plane, the connecting
+    vector is parallel to the normal, mirroring twice gives the leader back, a leader on the plane is its own image -/
+theorem T_C17_symmetry (n o l : V3) (hn : V3.dot n n ≠ 0) :
+    V3.dot (V3.smul (1 / 2) (l + symmetryLink n o l) - o) n = 0 ∧
+    V3.cross (symmetryLink n o l - l) n = V3.zero ∧
+    symmetryLink n o (symmetryLink n o l) = l ∧
+    (V3.dot (l - o) n = 0 → symmetryLink n o l = l) := by
+  refine ⟨?_, ?_, ?_, ?_⟩
+  · simp only [V3.dot] at hn
+    c17_unfold
+    generalize hNd : n.x * n.x + n.y * n.y + n.z * n.z = N at hn ⊢
+    field_simp
+    rw [← hNd]; ring
+  · apply V3.ext' <;> c17_unfold <;> ring
+  · exact (T_C09_point_mirror_aux n o l hn).1
+  · exact (T_C09_point_mirror_aux n o l hn).2
+
+example : V3.dot (⟨2, 1, -3⟩ : V3) ⟨2, 1, -3⟩ ≠ 0 := by c17_unfold; norm_num
+
+/-- `RotationLink`: when the leader is turned about the link's axis, the follower keeps its height and its distance
+    from the origin (hence its radius) and is turned by the same angle: the cosine and the sine of the turn of the
+    radius vectors agree (cross-multiplied by the squared radii, so that no square root is needed) -/
+theorem T_C17_rotation (w : Rat) (a o l0 f0 : V3) (hN : w * w + V3.dot a a ≠ 0) :
+    let l1 := rotP w a o l0
+    let f1 := rotationLink w a o f0
+    V3.dot (f1 - o) a = V3.dot (f0 - o) a ∧
+    V3.norm2 (f1 - o) = V3.norm2 (f0 - o) ∧
+    V3.norm2 (radial a o f1) = V3.norm2 (radial a o f0) ∧
+    V3.dot (radial a o f0) (radial a o f1) * V3.norm2 (radial a o l0)
+      = V3.dot (radial a o l0) (radial a o l1) * V3.norm2 (radial a o f0) ∧
+    V3.dot (V3.cross (radial a o f0) (radial a o f1)) a * V3.norm2 (radial a o l0)
+      = V3.dot (V3.cross (radial a o l0) (radial a o l1)) a * V3.norm2 (radial a o f0) := by
+  intro l1 f1
+  have hf : f1 - o = rotLin w a (f0 - o) := by
+    show rotP w a o f0 - o = _
+    unfold rotP; exact add_sub_cancel' _ _
+  have hrf : radial a o f1 = rotLin w a (radial a o f0) := radial_rot w a o f0 hN
+  have hrl : radial a o l1 = rotLin w a (radial a o l0) := radial_rot w a o l0 hN
+  have hsin : ∀ u, V3.dot a u = 0 →
+      (w * w + V3.dot a a) * V3.dot (V3.cross u (rotLin w a u)) a = 2 * w * V3.dot a a * V3.dot u u := by
+    intro u hu
+    have h := rotLin_sin w a u hN hu
+    have h2 : V3.dot (V3.smul (w * w + V3.dot a a) (V3.cross u (rotLin w a u))) a
+        = V3.dot (V3.smul (2 * w * V3.dot u u) a) a := by rw [h]
+    have e1 : ∀ (c : Rat) (x y : V3), V3.dot (V3.smul c x) y = c * V3.dot x y := by
+      intro c x y; c17_unfold; ring
+    rw [e1, e1] at h2
+    linarith
+  refine ⟨?_, ?_, ?_, ?_, ?_⟩
+  · rw [hf]
+    have := rotLin_dot w a (f0 - o) a hN
+    rwa [rotLin_axis] at this
+  · rw [hf]; exact rotLin_dot _ _ _ _ hN
+  · rw [hrf]; exact rotLin_dot _ _ _ _ hN
+  · rw [hrf, hrl]
+    have hA := rotLin_cos w a _ hN (radial_perp a o f0)
+    have hB := rotLin_cos w a _ hN (radial_perp a o l0)
+    apply mul_left_cancel₀ hN
+    simp only [V3.norm2]
+    linear_combination (V3.dot (radial a o l0) (radial a o l0)) * hA - (V3.dot (radial a o f0) (radial a o f0)) * hB
+  · rw [hrf, hrl]
+    have hA := hsin _ (radial_perp a o f0)
+    have hB := hsin _ (radial_perp a o l0)
+    apply mul_left_cancel₀ hN
+    simp only [V3.norm2]
+    linear_combination (V3.dot (radial a o l0) (radial a o l0)) * hA - (V3.dot (radial a o f0) (radial a o f0)) * hB
+
+example : (3 : Rat) * 3 + V3.dot (⟨1, 2, 2⟩ : V3) ⟨1, 2, 2⟩ ≠ 0 := by c17_unfold; norm_num
+
+/-- the decidable relation the correspondence check uses for arbitrary leader moves (`c17.rvalid`) accepts, with
+    tolerance 0, exactly this follower whenever the move is a rotation about the axis -/
+theorem T_C17_rotation_valid (w : Rat) (a o l0 f0 : V3) (hN : w * w + V3.dot a a ≠ 0) :
+    rotValid a o l0 (rotP w a o l0) f0 (rotationLink w a o f0) 0 = none := by
+  obtain ⟨h1, _, h3, h4, h5⟩ := T_C17_rotation w a o l0 f0 hN
+  have z : absR 0 = 0 := by simp [absR]
+  unfold rotValid
+  simp [h1, h3, h4, h5, z]
+
+/-- `update()` returns a new follower and leaves the leader exactly as the caller set it -/
+theorem T_C17_pure (l : Link) (transform : V3 → V3) :
+    (l.update transform).leader = l.leader ∧ (l.update transform).follower = transform l.leader :=
+  ⟨rfl, rfl⟩
 
 end CBV.C17
